@@ -469,12 +469,12 @@ fn fam_structure(tier: &str) -> Report {
     let mut r = Report::new("structure");
     // operands without a top-level split point (look-alikes inside groups / incomplete operands)
     let operands: Vec<&str> = vec![
-        "f", "|v| v + 1", "|x| -> u8 { x + 1 }", "then", "a + map", "!and_then", "fill::<{ W + 1 }, u8>(7)", "|Acc { n }, v| n + v",
+        "f", "|v| v + 1", "|x| -> u8 { x + 1 }", "|v| v << 2", "a >> b", "then", "a + map", "!and_then", "fill::<{ W + 1 }, u8>(7)", "|Acc { n }, v| n + v",
         "|v: u8| -> Buf<{ W }, u8> { v }", "|x: Vec<Vec<u8>>| x", "g::<u8, u16>", "(|x| -> u8 { x }, b..c)", "[a <= b, c >> 1]",
         "{ match a { 1 => b, _ => c } }", "m!(a |> b, c <<< d ~ e)", "\"|> => ~ , <<<\"", "h(|a| -> u8 { a }, b..c)", "a >> 2", "a < b", "a == b", "(a..b)",
         "if a > b { c } else { d }", "match a { 1 => b, _ => c }", "&mut a", "a as u8", "-a",
     ];
-    let opn = if tier == "thorough" { operands.len() } else { 17 };
+    let opn = if tier == "thorough" { operands.len() } else { 19 };
     let mut render = |acts: &[Act], init: &str, r: &mut Report| {
         let mut s = String::from(init);
         let mut exp: Vec<(String, bool, &str, Vec<String>)> = vec![("Single".into(), false, "None", vec![squeeze(init)])];
